@@ -5,6 +5,7 @@ windows-registry-key; a handful of paths; constants from small pools that hit (a
 Never imports stix2.
 """
 import copy
+import json
 
 from hypothesis import strategies as st
 
@@ -32,7 +33,8 @@ def _cs(kind, vals):
     return [_c(kind, v) for v in vals]
 
 
-INTS = _cs("int", [1, 2, 3, 5]) + [{"c": "int", "v": 1, "sp": "+1"}]
+BIG = 2 ** 53          # neighbours that collapse to one double: constants must be compared exactly, not after float()
+INTS = _cs("int", [1, 2, 3, 5]) + [{"c": "int", "v": 1, "sp": "+1"}] + _cs("int", [BIG, BIG + 1])
 FLOATS = _cs("float", ["1.0", "2.0", "1.5", "3.00", "0.5"])
 NUMS = INTS + FLOATS
 BOOLS = _cs("bool", [True, False])
@@ -397,6 +399,8 @@ def rw_set_permute(ast, pick, fresh):
 def _respell_num(c, pick):
     if c["c"] == "int":
         v = c["v"]
+        if abs(v) >= BIG:      # no float spelling denotes the same number
+            return {"c": "int", "v": v, "sp": "+%d" % v}
         return [{"c": "int", "v": v, "sp": "+%d" % v} if v >= 0 else {"c": "float", "sp": "%d.0" % v}, {"c": "float", "sp": "%d.0" % v},
                 {"c": "float", "sp": "%d.00" % v}][pick(3)]
     f = float(c["sp"])
@@ -688,9 +692,64 @@ def _multiplicity_pair(draw):
     return p, q
 
 
+def _confusable_constant_pair(draw):
+    """Two comparisons that differ only in a constant which a careless comparison confuses: integers beyond 2**53 that
+    collapse to one double.  Promises nothing (soundness decides)."""
+    t, steps = [("b", _k("x")), ("a", _k("x")), ("a", _k("z", "*")), ("a", _k("n", "k-2"))][draw(_I4)]
+    op = ["=", "!=", "<", ">=", "IN"][draw(st.integers(0, 4))]
+    n1, n2 = (BIG, BIG + 1) if draw(_I2) else (BIG + 1, BIG)
+
+    def cmp_(n):
+        rhs = {"c": "int", "v": n} if op != "IN" else {"c": "set", "items": [{"c": "int", "v": n}, {"c": "int", "v": 5}]}
+        return {"k": "obs", "e": {"k": "cmp", "path": {"t": t, "steps": steps}, "op": op, "neg": bool(draw(_I4) == 0) and op not in P.ORDER_OPS, "rhs": rhs}}
+    p = cmp_(n1)
+    q = copy.deepcopy(p)
+    if op == "IN":
+        q["e"]["rhs"]["items"][0]["v"] = n2
+    else:
+        q["e"]["rhs"]["v"] = n2
+    if draw(_I4) == 0:      # OR of both vs one of them (a careless de-duplication collapses the OR)
+        p = {"k": "oor", "args": [copy.deepcopy(p), copy.deepcopy(q)]}
+    return p, q
+
+
+def _deep_distribution_pair(draw):
+    """A op1 (B OR (C op2 (D OR E))) and its (one-step or fully) distributed form: three alternating levels, so the
+    normaliser has to distribute again inside the operands it has just built.  A documented law: equivalence is promised."""
+    mk = lambda: {"k": "obs", "e": g_comparison(draw, draw(_S_TYPE), True)}  # noqa: E731
+    # five operands that are pairwise different in MEANING (equal or special-equal operands would bring idempotence /
+    # absorption into play, whose recognition has its own known gaps and its own keys): x = <int> on types a / b
+    cands = [(t, v) for t in ("a", "b") for v in (1, 2, 3, 5)]
+    order = draw(st.permutations(cands))
+    ops = [{"k": "obs", "e": {"k": "cmp", "path": {"t": t, "steps": [{"s": "key", "n": "x", "q": False}]}, "op": "=", "neg": False, "rhs": {"c": "int", "v": v}}} for t, v in order[:5]]
+    a, b, c, d, e = ops
+    op1 = "oand" if draw(_I2) else "ofb"
+    op2 = "oand" if draw(_I2) else "ofb"
+    cp = copy.deepcopy
+    inner = {"k": op2, "args": [cp(c), {"k": "oor", "args": [cp(d), cp(e)]}]}
+    p = {"k": op1, "args": [cp(a), {"k": "oor", "args": [cp(b), inner]}]}
+    if draw(_I2):       # one step written out
+        q = {"k": "oor", "args": [{"k": op1, "args": [cp(a), cp(b)]}, {"k": op1, "args": [cp(a), cp(inner)]}]}
+    else:               # fully written out
+        q = {"k": "oor", "args": [{"k": op1, "args": [cp(a), cp(b)]},
+                                  {"k": op1, "args": [cp(a), {"k": op2, "args": [cp(c), cp(d)]}]},
+                                  {"k": op1, "args": [cp(a), {"k": op2, "args": [cp(c), cp(e)]}]}]}
+    if draw(_I2):
+        p, q = q, p
+    return p, q
+
+
 @st.composite
 def pair_case(draw):
-    if draw(st.integers(0, 15)) == 0:
+    r0 = draw(st.integers(0, 31))
+    if r0 == 0:
+        pq = _deep_distribution_pair(draw)
+        if pq is not None:
+            return {"kind": "pair", "p": pq[0], "q": pq[1], "rel": "rewrite:distribute+distribute", "sp": draw(_STYLE), "sq": draw(_STYLE)}
+    if r0 == 3:
+        p, q = _confusable_constant_pair(draw)
+        return {"kind": "pair", "p": p, "q": q, "rel": "mutation:confusable-constant", "sp": draw(_STYLE), "sq": draw(_STYLE)}
+    if r0 in (1, 2):
         p, q = _multiplicity_pair(draw)
         return {"kind": "pair", "p": p, "q": q, "rel": "mutation:absorb-multiplicity", "sp": draw(_STYLE), "sq": draw(_STYLE)}
     clean = draw(_I10) < 6
